@@ -95,19 +95,24 @@ structure DState where
 
 def b (s : String) : Option Bool := if s == "1" then some true else if s == "0" then some false else none
 
+/-- `begin mode valueBody keepPending [keepPendingValue] hasWebhooks hasReverse dev webhooks reverse ports`; the third
+fix flag may be left out (default: repaired). -/
+def dbegin (d : DState) (mode f1 f2 f3 hw hr dev wh rv ports : String) : DState × String :=
+  let r : Option DState := do
+    let mode ← if mode == "listen" then some Mode.listen else if mode == "poll" then some Mode.poll else none
+    let f1 ← b f1; let f2 ← b f2; let f3 ← b f3; let hw ← b hw; let hr ← b hr
+    let dev ← parseAttrs dev; let wh ← parseAttrs wh; let rv ← parseAttrs rv
+    let ports ← parseMsgs ports
+    let m0 : Master := { Master.init mode with dev := dev, webhooks := wh, reverse := rv, hasWebhooks := hw,
+                                               hasReverse := hr, online := true, ready := true }
+    pure { fix := ⟨f1, f2, f3⟩, m := fetchPorts ⟨f1, f2, f3⟩ m0 ports }
+  match r with
+  | some d' => (d', "ok")
+  | none => (d, "bad-op")
+
 def dstep (d : DState) : List String → DState × String
-  | ["begin", mode, f1, f2, hw, hr, dev, wh, rv, ports] =>
-    let r : Option DState := do
-      let mode ← if mode == "listen" then some Mode.listen else if mode == "poll" then some Mode.poll else none
-      let f1 ← b f1; let f2 ← b f2; let hw ← b hw; let hr ← b hr
-      let dev ← parseAttrs dev; let wh ← parseAttrs wh; let rv ← parseAttrs rv
-      let ports ← parseMsgs ports
-      let m0 : Master := { Master.init mode with dev := dev, webhooks := wh, reverse := rv, hasWebhooks := hw,
-                                                 hasReverse := hr, online := true, ready := true }
-      pure { fix := ⟨f1, f2⟩, m := fetchPorts ⟨f1, f2⟩ m0 ports }
-    match r with
-    | some d' => (d', "ok")
-    | none => (d, "bad-op")
+  | ["begin", mode, f1, f2, f3, hw, hr, dev, wh, rv, ports] => dbegin d mode f1 f2 f3 hw hr dev wh rv ports
+  | ["begin", mode, f1, f2, hw, hr, dev, wh, rv, ports] => dbegin d mode f1 f2 "1" hw hr dev wh rv ports
   | ["events", evs] =>
     match parseEvs evs with
     | some evs =>
@@ -170,7 +175,7 @@ def dstep (d : DState) : List String → DState × String
     | some i, some v => ({ d with m := valueResp d.m i v }, "ok")
     | _, _ => (d, "bad-op")
   | ["drain"] =>
-    let (rep, m') := drain d.m
+    let (rep, m') := drain d.fix d.m
     let parts := (rep.filter (fun x => !x.2.isEmpty)).map (fun x =>
       s!"{x.1}:" ++ ",".intercalate (x.2.map fmtVal))
     ({ d with m := m' }, "ok " ++ ";".intercalate parts)
